@@ -43,9 +43,13 @@ Watchdog::Watchdog(long csecs,
     throw std::invalid_argument("Watchdog constructor called with a"
                                 " non-positive number of centiseconds");
   }
+  PPL_VERIF_WD_YIELD(10);
   in_critical_section = true;
+  PPL_VERIF_WD_YIELD(11);
   pending_position = new_watchdog_event(csecs, handler, expired);
+  PPL_VERIF_WD_YIELD(12);
   in_critical_section = false;
+  PPL_VERIF_WD_YIELD(13);
 }
 
 inline
@@ -56,23 +60,34 @@ Watchdog::Watchdog(long csecs, void (* const function)())
     throw std::invalid_argument("Watchdog constructor called with a"
                                 " non-positive number of centiseconds");
   }
+  PPL_VERIF_WD_YIELD(10);
   in_critical_section = true;
+  PPL_VERIF_WD_YIELD(11);
   pending_position = new_watchdog_event(csecs, handler, expired);
+  PPL_VERIF_WD_YIELD(12);
   in_critical_section = false;
+  PPL_VERIF_WD_YIELD(13);
 }
 
 inline
 Watchdog::~Watchdog() {
+  PPL_VERIF_WD_YIELD(20);
   if (!expired) {
+    PPL_VERIF_WD_YIELD(21);
     in_critical_section = true;
+    PPL_VERIF_WD_YIELD(22);
     remove_watchdog_event(pending_position);
+    PPL_VERIF_WD_YIELD(23);
     in_critical_section = false;
+    PPL_VERIF_WD_YIELD(24);
   }
   delete &handler;
+  PPL_VERIF_WD_YIELD(25);
 }
 
 inline void
 Watchdog::reschedule() {
+  PPL_VERIF_WD_YIELD(80);
   set_timer(reschedule_time);
 }
 
